@@ -7,7 +7,6 @@ use iggy::{
     utils::{byte_size::IggyByteSize, duration::IggyDuration, sizeable::Sizeable},
 };
 use std::{
-    io::IoSlice,
     sync::{
         atomic::{AtomicU64, Ordering},
         Arc,
@@ -135,14 +134,16 @@ impl SegmentLogWriter {
         if let Some(ref mut file) = self.file {
             let header = batch_to_write.header_as_bytes();
             let batch_bytes = batch_to_write.bytes;
-            let slices = [IoSlice::new(&header), IoSlice::new(&batch_bytes)];
-
-            file.write_vectored(&slices)
-                .await
-                .with_error_context(|error| {
-                    format!("Failed to log to file: {}. {error}", self.file_path)
-                })
-                .map_err(|_| IggyError::CannotWriteToFile)?;
+            // A single write call may take only a part of the data (tokio::fs::File buffers at most
+            // 2 MiB per call): write_all keeps going until the whole batch has been handed over.
+            for bytes in [&header[..], &batch_bytes[..]] {
+                file.write_all(bytes)
+                    .await
+                    .with_error_context(|error| {
+                        format!("Failed to log to file: {}. {error}", self.file_path)
+                    })
+                    .map_err(|_| IggyError::CannotWriteToFile)?;
+            }
             // tokio::fs::File completes a write in the background; wait until it reached the file.
             file.flush()
                 .await
